@@ -16,7 +16,7 @@ for w in $(seq 0 $((N-1))); do
     i=0
     for s in "${seeds[@]}"; do
       if [ $((i % N)) -eq $w ]; then
-        ids=$(python3 -c "import json;print(' '.join(json.load(open('/verif/seeded/$s/meta.json'))['detected_by'][:2]))")
+        ids=$(python3 -c "import json;print(' '.join(json.load(open('/verif/seeded/$s/meta.json'))['detected_by'][:int(__import__('os').environ.get('MX_PER_SEED','2'))]))")
         git -C $root/repo apply /verif/seeded/$s/patch.diff 2>/dev/null || { echo "$s patch does not apply"; i=$((i+1)); continue; }
         for id in $ids; do
           out=$(./check $id --tier quick 2>&1 | grep -E "VIOLATION|CHECK-ERROR" | head -2 | tr '\n' ' ')
